@@ -5,6 +5,7 @@ import (
 	"errors"
 	"fmt"
 	"math/bits"
+	"time"
 
 	"go.sia.tech/core/blake2b"
 	"go.sia.tech/core/types"
@@ -18,7 +19,8 @@ var ErrCommitmentMismatch = errors.New("commitment hash mismatch")
 func ValidateHeader(s State, bh types.BlockHeader) error {
 	if bh.ParentID != s.Index.ID {
 		return errors.New("wrong parent ID")
-	} else if bh.Timestamp.Before(s.medianTimestamp()) {
+	} else if time.Unix(bh.Timestamp.Unix(), 0).Before(s.medianTimestamp()) {
+		// NOTE: only the whole seconds of a timestamp are part of the header
 		return errors.New("timestamp too far in the past")
 	} else if bh.Nonce%s.NonceFactor() != 0 {
 		return errors.New("nonce not divisible by required factor")
